@@ -628,7 +628,7 @@ func ruleLimit(e *Env, ruleName string, pkgs ...string) {
 			}
 		}
 		for _, m := range unmarshalMethods {
-			if m[0] == pkg && (m[2] == "UnmarshalText" || m[2] == "UnmarshalJSON") {
+			if m[0] == pkg { // the recorded decoding methods: each is held to its own rules (text: the limit through the parser; binary: an exact length)
 				if f := e.P.Method(m[0], m[1], m[2]); f != nil {
 					guarded[flow.Origin(f)] = true
 				}
